@@ -79,11 +79,14 @@ def plan(pid, tier):
     if pid == "C12":
         jobs = [arena_job("allocator-api", "allocapi", 12, 3, 1, 45, tier)] if q else [arena_job("allocator-api-d4", "allocapi", 12, 4, 1, 700, tier, min_aligns="1,8,16"), arena_job("allocator-api-d3-dev2", "allocapi", 12, 3, 2, 300, tier)]
         return {"level": "model_checking", "jobs": jobs, "owns_crashes": True, "rule": RULE_ARENA, "assumptions": ARENA_ASSUME, "bounds": {"depth": 3 if q else 4, "deviations": 1 if q else 2}}
+    if pid in ("C13", "C14", "C15", "C16", "C17"):
+        return coll_plan(pid, tier)
     if pid == "C18":
-        jobs = [grid_job("capacity-compositions", "capacity", 18, tier), grid_job("growth-workloads", "growth", 18, tier, slab_mb=64), arena_job("chunk-capacity-probe", "capprobe", 18, 3, 1, 40, tier)]
+        jobs = [grid_job("capacity-compositions", "capacity", 18, tier), grid_job("growth-workloads", "growth", 18, tier, slab_mb=64), arena_job("chunk-capacity-probe", "capprobe", 18, 3, 1, 40, tier), grid_job("vec-string-capacity", "vecgrowth", 18, tier, slab_mb=64)]
         if not q:
             jobs = [grid_job("capacity-compositions", "capacity", 18, tier, budget=600), grid_job("growth-workloads", "growth", 18, tier, budget=600, slab_mb=96, threads=8),
-                    arena_job("chunk-capacity-probe-d4", "capprobe", 18, 4, 1, 500, tier, min_aligns="1,8,16"), arena_job("chunk-capacity-probe-d3-dev2", "capprobe", 18, 3, 2, 300, tier)]
+                    arena_job("chunk-capacity-probe-d4", "capprobe", 18, 4, 1, 500, tier, min_aligns="1,8,16"), arena_job("chunk-capacity-probe-d3-dev2", "capprobe", 18, 3, 2, 300, tier),
+                    grid_job("vec-string-capacity", "vecgrowth", 18, tier, slab_mb=64)]
         return {"level": "exploration", "jobs": jobs, "owns_crashes": False, "rule": RULE_GRID + "; plus BFS over arena histories with a terminal probe of exactly chunk_capacity() bytes under a refusing allocator",
                 "assumptions": ARENA_ASSUME + ["'logarithmic' and 'constant factor' are decided on a finite workload grid (volumes up to 2^18 quick / 2^24 thorough) with loose constants: requests <= 2*log2(V/first chunk)+6, held <= 8*occupied + 8 KiB + 2 max requests"],
                 "bounds": {"capacities": "0..=600, 2^k-65..2^k-63 (k=10..20), 4032, 4033, 8128, 8129, 2^16, 2^20", "volume_log2": 18 if q else 24, "probe_depth": 3 if q else 4}}
@@ -102,6 +105,48 @@ def plan(pid, tier):
                 "rule": "(1) BFS over interleaved histories of 2 (thorough: also 3) real arenas, each with its own allocator slab; every arena's trace is compared with its own sub-history run alone, every footer store reported by the verif_hooks hook must target the acting arena's own chunks; (2) loom explores all schedules (operation granularity, DPOR, no preemption bound) of 2-3 threads each driving its own arena and of arena hand-over; the shared static is a loom UnsafeCell so unsynchronised conflicting accesses are reported as data races",
                 "assumptions": ["bumpalo contains no atomics: schedules are explored at operation granularity; races are decided by happens-before over instrumented accesses (footer stores via the hook, reads of the shared static by chunk-less arenas)", "a store through a site without the hook would be invisible to loom (the sequential pair model still detects a changed static)"],
                 "bounds": {"pair_depth": d, "arenas": 2 if q else 3, "loom_threads": "2-3", "loom_ops_per_thread": "1-3 (thorough: up to 4)"}}
+    return None
+
+
+def coll_job(name, cmd, prop, depth, max_len, tier, budget, mode="diff", build="release"):
+    args = [cmd, "--prop", str(prop), "--depth", str(depth), "--max-len", str(max_len), "--tier", tier, "--budget-s", str(budget), "--mode", mode]
+    return {"name": name, "bin": "bumpmc", "profile_build": build, "args": args, "replay_args": ["replay-" + cmd, "--depth", str(depth), "--max-len", str(max_len), "--tier", tier, "--mode", mode]}
+
+
+COLL_ASSUME = [
+    "std::vec::Vec / std::string::String / std::boxed::Box of the installed toolchain (rustc 1.95) are the reference models; bumpalo's drain_filter is compared with extract_if wrapped so that dropping the iterator exhausts it (the contract bumpalo documents)",
+    "elements carry harness labels; equality of destructor runs is judged on labels (multiset), not on drop order",
+    "size arguments are kept to those where std panics before allocating (huge-size behaviour is C19's)",
+] + ARENA_ASSUME[:1]
+
+RULE_COLL = ("level-synchronous BFS over programs of collection operations; every program is re-executed from scratch on a real arena-backed container and on the std reference; "
+             "states are keyed by contents, length, capacity, arena chunk room, whether the buffer is the arena's last block, and neighbour sizes; arguments (indices, ranges) are generated relative to the current length")
+
+
+def coll_plan(pid, tier):
+    q = tier == "quick"
+    if pid == "C13":
+        jobs = [coll_job("vec-vs-std", "vec", 13, 4, 4, tier, 45)] if q else [coll_job("vec-vs-std-len6", "vec", 13, 5, 6, tier, 900), coll_job("vec-vs-std-len4-dbg", "vec", 13, 4, 4, tier, 300, build="dbg")]
+        return {"level": "model_checking", "jobs": jobs, "owns_crashes": True, "rule": RULE_COLL, "assumptions": COLL_ASSUME, "bounds": {"max_len": 4 if q else 6, "depth": 4 if q else 5, "element_types": ["D", "u8", "Z"]}, "build_profiles": ("release",) if q else ("release", "dbg")}
+    if pid == "C15":
+        jobs = [coll_job("vec-drop-ledger", "vec", 15, 4, 4, tier, 45), grid_job("box-chains", "box", 15, tier)] if q else [coll_job("vec-drop-ledger-len6", "vec", 15, 5, 6, tier, 900), grid_job("box-chains", "box", 15, tier)]
+        return {"level": "model_checking", "jobs": jobs, "owns_crashes": False, "rule": RULE_COLL + "; Box: exhaustive conversion chains", "assumptions": COLL_ASSUME, "bounds": {"max_len": 4 if q else 6, "depth": 4 if q else 5, "box_chain_steps": 3 if q else 4}}
+    if pid == "C14":
+        jobs = [coll_job("string-vs-std", "str", 14, 3, 3, tier, 45), grid_job("decoder-grids", "decoders", 14, tier, budget=100)] if q else [coll_job("string-vs-std-4chars", "str", 14, 4, 4, tier, 900), grid_job("decoder-grids", "decoders", 14, tier, budget=3000), coll_job("string-vs-std-dbg", "str", 14, 3, 3, tier, 300, build="dbg")]
+        return {"level": "model_checking", "jobs": jobs, "owns_crashes": True, "rule": RULE_COLL + "; decoders: exhaustive grids (all byte strings of length <= 3 (thorough 4); class-alphabet strings to length 5 (thorough 7); UTF-16 unit classes to length 6)", "assumptions": COLL_ASSUME,
+                "bounds": {"max_chars": 3 if q else 4, "depth": 3 if q else 4, "byte_strings_len": 3 if q else 4, "class_strings_len": 5 if q else 7}, "build_profiles": ("release",) if q else ("release", "dbg")}
+    if pid == "C16":
+        jobs = [coll_job("vec-panic-points", "vec", 16, 2, 4, tier, 45, mode="faults"), coll_job("string-panic-points", "str", 16, 2, 4, tier, 30, mode="faults"), grid_job("box-drop-panics", "box", 16, tier), arena_job("arena-callback-panics", "panics", 16, 2, 0, 40, tier)]
+        if not q:
+            jobs = [coll_job("vec-panic-points-len5", "vec", 16, 3, 5, tier, 900, mode="faults"), coll_job("string-panic-points", "str", 16, 3, 4, tier, 300, mode="faults"), grid_job("box-drop-panics", "box", 16, tier), arena_job("arena-callback-panics-d3", "panics", 16, 3, 0, 300, tier)]
+        return {"level": "fault_enumeration", "jobs": jobs, "owns_crashes": True, "rule": RULE_COLL + "; faults: for every container state (all value patterns up to the length bound, optionally after one prior operation) x every operation that calls user code x every invocation index of that callback as the single panic point",
+                "assumptions": COLL_ASSUME + ["a panic injected while the thread is already unwinding is not a case (the language aborts); leaks are allowed"], "bounds": {"max_len": 4 if q else 5, "prefix_ops": 1 if q else 2, "fault_indices": "0..2*len+4"}}
+    if pid == "C17":
+        jobs = [grid_job("box-chains", "box", 17, tier)]
+        if not q:
+            jobs.append(grid_job("box-chains-dbg", "box", 17, tier, build="dbg"))
+        return {"level": "model_checking", "jobs": jobs, "owns_crashes": True, "rule": "exhaustive enumeration of conversion chains (constructor x up to 3 (thorough 4) ownership-preserving steps x terminal) over 11 value families, executed on bumpalo::boxed::Box and std::boxed::Box; observations, destructor ledgers and the arena's ledger are compared",
+                "assumptions": COLL_ASSUME, "bounds": {"chain_steps": 3 if q else 4, "families": 11}, "build_profiles": ("release",) if q else ("release", "dbg")}
     return None
 
 
